@@ -430,31 +430,49 @@ Proof.
   unfold set_private, set_info_field. rewrite Sp, Vs, Vc. reflexivity.
 Qed.
 
-(* [mp], [ip]: meta and info just before the two final sorts *)
+(* info just before `if info_edit: info = sorted(info)` *)
+Definition info_pre (req : request) (m i : dict) : dict :=
+  set_private (rq_private req)
+    (set_info_field k_source (rq_source req)
+       (set_info_field k_comment (rq_comment req) (snd (filter_empty req (m, i))))).
+
+(* info as stored by `meta["info"] = info` *)
+Definition info_fin (req : request) (m i : dict) : dict :=
+  if info_edit req then sort_keys (info_pre req m i) else info_pre req m i.
+
+(* [mp]: meta just before `meta["info"] = info` *)
 Lemma edit_torrent_shape req (m i : dict) m' :
   lookup k_info m = Some (BDict i) -> edit_torrent req m = Some m' ->
-  exists mp ip : dict,
-    m' = sort_keys (update k_info (BDict (if info_edit req then sort_keys ip else ip)) mp) /\
+  exists mp : dict,
+    m' = sort_keys (update k_info (BDict (info_fin req m i)) mp) /\
     (forall P : dict -> Prop,
         (forall k d, P d -> P (remove k d)) -> (forall k v d, flat v -> P d -> P (update k v d)) ->
         P m -> P mp) /\
     (forall Q : dict -> Prop,
         (forall k d, Q d -> Q (remove k d)) -> (forall k v d, flat v -> Q d -> Q (update k v d)) ->
-        Q i -> Q ip) /\
+        Q i -> Q (info_pre req m i)) /\
     (info_edit req = false ->
-     forall Q : dict -> Prop, (forall k d, Q d -> Q (remove k d)) -> Q i -> Q ip).
+     forall Q : dict -> Prop, (forall k d, Q d -> Q (remove k d)) -> Q i -> Q (info_pre req m i)).
 Proof.
   intros Hi E. unfold edit_torrent in E. rewrite Hi in E. cbv beta iota zeta in E.
+  fold (info_pre req m i) in E. fold (info_fin req m i) in E.
   set (st := filter_empty req _) in E.
   destruct (set_announce (rq_announce req) (fst st)) as [m2|] eqn:Ea; [|discriminate].
   injection E as <-.
-  eexists. eexists. split; [reflexivity|]. split; [|split].
+  eexists. split; [reflexivity|]. split; [|split].
   - intros P Pr Pu Pm. eapply set_top_phase_inv; [exact Pu|exact Ea|].
     apply (filter_empty_inv P (fun _ => True) req (m, i)); auto.
-  - intros Q Qr Qu Qi. apply set_info_phase_inv; [exact Qu|].
+  - intros Q Qr Qu Qi. unfold info_pre. apply set_info_phase_inv; [exact Qu|].
     apply (filter_empty_inv (fun _ => True) Q req (m, i)); auto.
-  - intros IE Q Qr Qi. rewrite set_info_phase_keep by exact IE.
+  - intros IE Q Qr Qi. unfold info_pre. rewrite set_info_phase_keep by exact IE.
     apply (filter_empty_inv (fun _ => True) Q req (m, i)); auto.
+Qed.
+
+Lemma edit_some_info req m m' :
+  edit_torrent req m = Some m' -> exists i, lookup k_info m = Some (BDict i).
+Proof.
+  unfold edit_torrent. destruct (lookup k_info m) as [[z|s|l|i]|]; try discriminate.
+  intros _. exists i. reflexivity.
 Qed.
 
 (* closure properties used with the shape lemma *)
@@ -500,3 +518,749 @@ Lemma lookup_Forall_snd (R : value -> Prop) k v d :
 Proof.
   intros H L. apply lookup_Some_In in L. rewrite Forall_forall in H. apply (H (k, v) L).
 Qed.
+
+(* ========================================================================================== *)
+(* 3. Main theorems                                                                            *)
+(* ========================================================================================== *)
+
+Definition P_nodup (d : dict) : Prop := NoDup (map fst d).
+
+Lemma P_nodup_remove k d : P_nodup d -> P_nodup (remove k d).
+Proof. apply remove_NoDup. Qed.
+Lemma P_nodup_update k v d : flat v -> P_nodup d -> P_nodup (update k v d).
+Proof. intros _. apply update_NoDup. Qed.
+
+Lemma info_fin_NoDup req (m i : dict) m' :
+  lookup k_info m = Some (BDict i) -> edit_torrent req m = Some m' ->
+  NoDup (map fst i) -> NoDup (map fst (info_fin req m i)).
+Proof.
+  intros Hi E Ni. destruct (edit_torrent_shape req m i m' Hi E) as (mp & _ & _ & Hq & _).
+  unfold info_fin. destruct (info_edit req); [apply sort_keys_NoDup|];
+    apply (Hq P_nodup P_nodup_remove P_nodup_update Ni).
+Qed.
+
+(* where the new info is in the result *)
+Lemma edit_info_of req (m i : dict) m' :
+  NoDup (map fst m) -> lookup k_info m = Some (BDict i) -> edit_torrent req m = Some m' ->
+  lookup k_info m' = Some (BDict (info_fin req m i)).
+Proof.
+  intros Nm Hi E. destruct (edit_torrent_shape req m i m' Hi E) as (mp & -> & Hp & _).
+  rewrite lookup_sort_keys.
+  - apply lookup_update_same.
+  - apply update_NoDup. apply (Hp P_nodup P_nodup_remove P_nodup_update Nm).
+Qed.
+
+Lemma filter_one_not_clear k r st : is_clear r = false -> filter_one k r st = st.
+Proof. intros H. unfold filter_one. rewrite H. reflexivity. Qed.
+
+Lemma filter_empty_info_keep req (m i : dict) :
+  layout_info_ok i -> info_edit req = false -> snd (filter_empty req (m, i)) = i.
+Proof.
+  intros (Ia & Iu & Ih & _) IE. unfold info_edit in IE.
+  apply orb_false_iff in IE. destruct IE as [IE Kp]. apply orb_false_iff in IE.
+  destruct IE as [Kc Ks]. apply negb_false_iff in Kc, Ks, Kp.
+  apply is_keep_after in Kc, Ks, Kp.
+  destruct Kc as (Cc & _), Ks as (Cs & _), Kp as (Cp & _).
+  unfold filter_empty.
+  rewrite (filter_one_top k_url_list) by exact Iu.
+  rewrite (filter_one_top k_httpseeds) by exact Ih.
+  rewrite (filter_one_top k_announce) by exact Ia.
+  rewrite !filter_one_not_clear by assumption. reflexivity.
+Qed.
+
+(* ---- E3: no info field in the request => the info VALUE is syntactically the same ---- *)
+Theorem edit_info_untouched req (m i : dict) m' :
+  NoDup (map fst m) -> lookup k_info m = Some (BDict i) -> layout_info_ok i ->
+  rq_comment req = Keep -> rq_source req = Keep -> rq_private req = Keep ->
+  edit_torrent req m = Some m' ->
+  lookup k_info m' = Some (BDict i).
+Proof.
+  intros Nm Hi Li Kc Ks Kp E.
+  assert (IE : info_edit req = false) by (unfold info_edit; rewrite Kc, Ks, Kp; reflexivity).
+  rewrite (edit_info_of req m i m' Nm Hi E). unfold info_fin, info_pre. rewrite IE.
+  rewrite set_info_phase_keep by exact IE. rewrite filter_empty_info_keep by assumption.
+  reflexivity.
+Qed.
+
+(* hence the same bencoding of info, hence the same info-hash for every hash function *)
+Corollary edit_info_hash_unchanged (H : bytes -> bytes) req (m i : dict) m' :
+  NoDup (map fst m) -> lookup k_info m = Some (BDict i) -> layout_info_ok i ->
+  rq_comment req = Keep -> rq_source req = Keep -> rq_private req = Keep ->
+  edit_torrent req m = Some m' ->
+  option_map (fun v => H (encode v)) (lookup k_info m')
+  = option_map (fun v => H (encode v)) (lookup k_info m).
+Proof.
+  intros Nm Hi Li Kc Ks Kp E.
+  rewrite (edit_info_untouched req m i m' Nm Hi Li Kc Ks Kp E), Hi. reflexivity.
+Qed.
+
+(* ---- E1 / E2: frame ---- *)
+Lemma top_after_untouched req k old : ~ In k (touched_top req) -> top_after req k old = old.
+Proof.
+  unfold touched_top, top_after. intros H.
+  destruct (bytes_eqb_spec k_announce k) as [<-|N1].
+  { destruct (rq_announce req) as [| |s|l]; try reflexivity; exfalso; apply H; left; reflexivity. }
+  destruct (bytes_eqb_spec k_announce_list k) as [<-|N2].
+  { destruct (rq_announce req) as [| |s|l]; try reflexivity; exfalso; apply H; right; left; reflexivity. }
+  destruct (bytes_eqb_spec k_url_list k) as [<-|N3].
+  { destruct (rq_url_list req) as [| |s|l]; try reflexivity; exfalso; apply H;
+      apply in_or_app; right; left; reflexivity. }
+  destruct (bytes_eqb_spec k_httpseeds k) as [<-|N4]; [|reflexivity].
+  destruct (rq_httpseeds req) as [| |s|l]; try reflexivity; exfalso; apply H;
+    apply in_or_app; right; apply in_or_app; right; left; reflexivity.
+Qed.
+
+Lemma info_after_untouched req k old : ~ In k (touched_info req) -> info_after req k old = old.
+Proof.
+  unfold touched_info, info_after. intros H.
+  destruct (bytes_eqb_spec k_comment k) as [<-|N1].
+  { destruct (rq_comment req) as [| |s|l]; try reflexivity; exfalso; apply H; left; reflexivity. }
+  destruct (bytes_eqb_spec k_source k) as [<-|N2].
+  { destruct (rq_source req) as [| |s|l]; try reflexivity; exfalso; apply H;
+      apply in_or_app; right; left; reflexivity. }
+  destruct (bytes_eqb_spec k_private k) as [<-|N3]; [|reflexivity].
+  destruct (rq_private req) as [| |s|l]; try reflexivity; exfalso; apply H;
+    apply in_or_app; right; apply in_or_app; right; left; reflexivity.
+Qed.
+
+Theorem edit_frame_top req (m i : dict) m' k :
+  NoDup (map fst m) -> lookup k_info m = Some (BDict i) -> NoDup (map fst i) -> layout_ok m ->
+  edit_torrent req m = Some m' ->
+  ~ In k (touched_top req) -> lookup k m' = lookup k m.
+Proof.
+  intros Nm Hi Ni L E Hk.
+  destruct (edit_spec req m i m' Nm Hi Ni L E) as (i' & _ & _ & _ & Ht & _).
+  rewrite Ht.
+  - apply top_after_untouched; exact Hk.
+  - intros ->. apply Hk. unfold touched_top. repeat (apply in_or_app; right). left; reflexivity.
+Qed.
+
+Theorem edit_frame_info req (m i : dict) m' k :
+  NoDup (map fst m) -> lookup k_info m = Some (BDict i) -> NoDup (map fst i) -> layout_ok m ->
+  edit_torrent req m = Some m' ->
+  ~ In k (touched_info req) -> lookup k (info_of m') = lookup k (info_of m).
+Proof.
+  intros Nm Hi Ni L E Hk.
+  destruct (edit_spec req m i m' Nm Hi Ni L E) as (i' & Hi' & _ & _ & _ & Hinf & _).
+  unfold info_of. rewrite Hi', Hi, Hinf. apply info_after_untouched; exact Hk.
+Qed.
+
+(* ---- E4: every Set field has the prescribed value at its home, every Cleared field is gone ---- *)
+Theorem edit_sets req (m i : dict) m' :
+  NoDup (map fst m) -> lookup k_info m = Some (BDict i) -> NoDup (map fst i) -> layout_ok m ->
+  edit_torrent req m = Some m' ->
+  (forall v, set_value (rq_comment req) = Some v -> lookup k_comment (info_of m') = Some v) /\
+  (is_clear (rq_comment req) = true -> lookup k_comment (info_of m') = None) /\
+  (forall v, set_value (rq_source req) = Some v -> lookup k_source (info_of m') = Some v) /\
+  (is_clear (rq_source req) = true -> lookup k_source (info_of m') = None) /\
+  (is_set (rq_private req) = true -> lookup k_private (info_of m') = Some (BInt 1)) /\
+  (is_clear (rq_private req) = true -> lookup k_private (info_of m') = None) /\
+  (forall x ws, set_words (rq_announce req) = Some (x :: ws) ->
+                lookup k_announce m' = Some (BStr x) /\
+                lookup k_announce_list m' = Some (BList [BList (map BStr (x :: ws))])) /\
+  (is_clear (rq_announce req) = true -> lookup k_announce m' = None) /\
+  (forall ws, set_words (rq_url_list req) = Some ws ->
+              lookup k_url_list m' = Some (BList (map BStr ws))) /\
+  (is_clear (rq_url_list req) = true -> lookup k_url_list m' = None) /\
+  (forall ws, set_words (rq_httpseeds req) = Some ws ->
+              lookup k_httpseeds m' = Some (BList (map BStr ws))) /\
+  (is_clear (rq_httpseeds req) = true -> lookup k_httpseeds m' = None).
+Proof.
+  intros Nm Hi Ni L E.
+  destruct (edit_spec req m i m' Nm Hi Ni L E) as (i' & Hi' & _ & _ & Ht & Hinf & _).
+  unfold info_of. rewrite Hi'. rewrite !Hinf.
+  rewrite !Ht by (intros C; vm_compute in C; discriminate).
+  unfold info_after, top_after. keq. cbv iota.
+  unfold fld_after, priv_after, ann_after, annlist_after, words_after.
+  repeat match goal with |- _ /\ _ => split end.
+  - intros v Hv. rewrite (set_value_clear _ _ Hv), Hv. reflexivity.
+  - intros ->. reflexivity.
+  - intros v Hv. rewrite (set_value_clear _ _ Hv), Hv. reflexivity.
+  - intros ->. reflexivity.
+  - intros Hs. rewrite (is_set_clear _ Hs), Hs. reflexivity.
+  - intros ->. reflexivity.
+  - intros x ws Hw. rewrite (set_words_clear _ _ Hw), Hw. split; reflexivity.
+  - intros ->. reflexivity.
+  - intros ws Hw. rewrite (set_words_clear _ _ Hw), Hw. reflexivity.
+  - intros ->. reflexivity.
+  - intros ws Hw. rewrite (set_words_clear _ _ Hw), Hw. reflexivity.
+  - intros ->. reflexivity.
+Qed.
+
+(* ---- E7: no duplicate keys are created ---- *)
+Theorem edit_preserves_nodup req (m i : dict) m' :
+  NoDup (map fst m) -> lookup k_info m = Some (BDict i) -> NoDup (map fst i) ->
+  edit_torrent req m = Some m' ->
+  NoDup (map fst m') /\ exists i', lookup k_info m' = Some (BDict i') /\ NoDup (map fst i').
+Proof.
+  intros Nm Hi Ni E. split.
+  - destruct (edit_torrent_shape req m i m' Hi E) as (mp & -> & Hp & _).
+    apply sort_keys_NoDup, update_NoDup. apply (Hp P_nodup P_nodup_remove P_nodup_update Nm).
+  - exists (info_fin req m i). split; [apply edit_info_of; assumption|].
+    eapply info_fin_NoDup; eassumption.
+Qed.
+
+Definition P_nodup_keys (d : dict) : Prop := nodup_keys (BDict d).
+
+Lemma P_nodup_keys_remove k d : P_nodup_keys d -> P_nodup_keys (remove k d).
+Proof.
+  unfold P_nodup_keys. intros H. inversion H as [| | |d' Hn Hf]; subst.
+  constructor; [apply remove_NoDup; exact Hn|apply Forall_snd_remove; exact Hf].
+Qed.
+
+Lemma P_nodup_keys_update_gen k v d : nodup_keys v -> P_nodup_keys d -> P_nodup_keys (update k v d).
+Proof.
+  unfold P_nodup_keys. intros Hv H. inversion H as [| | |d' Hn Hf]; subst.
+  constructor; [apply update_NoDup; exact Hn|apply Forall_snd_update; assumption].
+Qed.
+
+Lemma P_nodup_keys_update k v d : flat v -> P_nodup_keys d -> P_nodup_keys (update k v d).
+Proof. intros Hv. apply P_nodup_keys_update_gen, flat_nodup, Hv. Qed.
+
+Lemma P_nodup_keys_sort d : P_nodup_keys d -> P_nodup_keys (sort_keys d).
+Proof.
+  unfold P_nodup_keys. intros H. inversion H as [| | |d' Hn Hf]; subst.
+  constructor; [apply sort_keys_NoDup; exact Hn|apply Forall_snd_sort_keys; exact Hf].
+Qed.
+
+(* the same at every depth *)
+Theorem edit_preserves_nodup_keys req m m' :
+  nodup_keys (BDict m) -> edit_torrent req m = Some m' -> nodup_keys (BDict m').
+Proof.
+  intros Hm E. destruct (edit_some_info req m m' E) as [i Hi].
+  destruct (edit_torrent_shape req m i m' Hi E) as (mp & -> & Hp & Hq & _).
+  assert (Hin : nodup_keys (BDict i)).
+  { inversion Hm as [| | |d' Hn Hf]; subst.
+    apply (lookup_Forall_snd nodup_keys k_info (BDict i) m Hf Hi). }
+  apply P_nodup_keys_sort. apply P_nodup_keys_update_gen.
+  - unfold info_fin. destruct (info_edit req); [apply P_nodup_keys_sort|];
+      apply (Hq P_nodup_keys P_nodup_keys_remove P_nodup_keys_update Hin).
+  - apply (Hp P_nodup_keys P_nodup_keys_remove P_nodup_keys_update Hm).
+Qed.
+
+(* ---- E6 (C06): the edit keeps a canonical metafile canonical ---- *)
+Definition P_canon_vals (d : dict) : Prop :=
+  NoDup (map fst d) /\ Forall (fun kv => canon (snd kv)) d.
+
+Lemma P_canon_vals_remove k d : P_canon_vals d -> P_canon_vals (remove k d).
+Proof. intros [A B]. split; [apply remove_NoDup; exact A|apply Forall_snd_remove; exact B]. Qed.
+Lemma P_canon_vals_update_gen k v d : canon v -> P_canon_vals d -> P_canon_vals (update k v d).
+Proof. intros Hv [A B]. split; [apply update_NoDup; exact A|apply Forall_snd_update; assumption]. Qed.
+Lemma P_canon_vals_update k v d : flat v -> P_canon_vals d -> P_canon_vals (update k v d).
+Proof. intros Hv. apply P_canon_vals_update_gen, flat_canon, Hv. Qed.
+
+Definition P_canon (d : dict) : Prop := canon (BDict d).
+Lemma P_canon_remove k d : P_canon d -> P_canon (remove k d).
+Proof.
+  unfold P_canon. intros H. inversion H as [| | |d' Hs Hf]; subst.
+  constructor; [apply sorted_remove; exact Hs|apply Forall_snd_remove; exact Hf].
+Qed.
+
+Theorem edit_canon req m m' :
+  canon (BDict m) -> edit_torrent req m = Some m' -> canon (BDict m').
+Proof.
+  intros Hm E. destruct (edit_some_info req m m' E) as [i Hi].
+  destruct (edit_torrent_shape req m i m' Hi E) as (mp & -> & Hp & Hq & Hk).
+  inversion Hm as [| | |d' Hs Hf]; subst.
+  assert (Hin : canon (BDict i)) by (apply (lookup_Forall_snd canon k_info (BDict i) m Hf Hi)).
+  assert (Pi : P_canon_vals i).
+  { inversion Hin as [| | |d' Hs' Hf']; subst. split; [apply sorted_keys_NoDup; exact Hs'|exact Hf']. }
+  assert (Pm : P_canon_vals m) by (split; [apply sorted_keys_NoDup; exact Hs|exact Hf]).
+  assert (Cfin : canon (BDict (info_fin req m i))).
+  { unfold info_fin. destruct (info_edit req) eqn:IE.
+    - destruct (Hq P_canon_vals P_canon_vals_remove P_canon_vals_update Pi) as [A B].
+      apply sort_keys_canon_top; assumption.
+    - apply (Hk eq_refl P_canon P_canon_remove Hin). }
+  destruct (P_canon_vals_update_gen k_info _ mp Cfin
+              (Hp P_canon_vals P_canon_vals_remove P_canon_vals_update Pm)) as [A B].
+  apply sort_keys_canon_top; assumption.
+Qed.
+
+(* for ANY duplicate-free metafile the top level of the result is strictly sorted, and so is info
+   as soon as one info field is in the request *)
+Theorem edit_top_sorted req m m' :
+  NoDup (map fst m) -> edit_torrent req m = Some m' -> StronglySorted key_lt m'.
+Proof.
+  intros Nm E. destruct (edit_some_info req m m' E) as [i Hi].
+  destruct (edit_torrent_shape req m i m' Hi E) as (mp & -> & Hp & _).
+  apply sort_keys_sorted, update_NoDup. apply (Hp P_nodup P_nodup_remove P_nodup_update Nm).
+Qed.
+
+Theorem edit_info_sorted req (m i : dict) m' :
+  NoDup (map fst m) -> lookup k_info m = Some (BDict i) -> NoDup (map fst i) ->
+  edit_torrent req m = Some m' -> info_edit req = true ->
+  exists i', lookup k_info m' = Some (BDict i') /\ StronglySorted key_lt i'.
+Proof.
+  intros Nm Hi Ni E IE. exists (info_fin req m i). split; [apply edit_info_of; assumption|].
+  destruct (edit_torrent_shape req m i m' Hi E) as (mp & _ & _ & Hq & _).
+  unfold info_fin. rewrite IE. apply sort_keys_sorted.
+  apply (Hq P_nodup P_nodup_remove P_nodup_update Ni).
+Qed.
+
+(* ========================================================================================== *)
+(* 4. E5: a history of edits = per field, the last request that is not Keep                    *)
+(* ========================================================================================== *)
+
+Definition top_seq (reqs : list request) (k : bytes) (old : option value) : option value :=
+  fold_left (fun o r => top_after r k o) reqs old.
+Definition info_seq (reqs : list request) (k : bytes) (old : option value) : option value :=
+  fold_left (fun o r => info_after r k o) reqs old.
+
+Lemma edit_seq_None reqs :
+  fold_left (fun acc r => match acc with Some m => edit_torrent r m | None => None end)
+            reqs None = None.
+Proof. induction reqs as [|r reqs IH]; cbn [fold_left]; [reflexivity|exact IH]. Qed.
+
+Lemma edit_seq_cons r reqs m :
+  edit_seq (r :: reqs) m =
+  match edit_torrent r m with Some m1 => edit_seq reqs m1 | None => None end.
+Proof.
+  unfold edit_seq. cbn [fold_left]. destruct (edit_torrent r m); [reflexivity|apply edit_seq_None].
+Qed.
+
+Lemma edit_layout_ok req (m i : dict) m' :
+  NoDup (map fst m) -> lookup k_info m = Some (BDict i) -> NoDup (map fst i) -> layout_ok m ->
+  edit_torrent req m = Some m' -> layout_ok m'.
+Proof.
+  intros Nm Hi Ni L E.
+  destruct (edit_spec req m i m' Nm Hi Ni L E) as (i' & Hi' & _ & _ & Ht & Hinf & _).
+  destruct L as [(Tc & Ts & Tp) Li]. unfold info_of in Li. rewrite Hi in Li.
+  destruct Li as (Ia & Iu & Ih & Il).
+  unfold layout_ok, layout_top_ok, layout_info_ok, info_of. rewrite Hi'. rewrite !Hinf.
+  rewrite !Ht by (intros C; vm_compute in C; discriminate).
+  unfold top_after, info_after. keq. cbv iota. repeat split; assumption.
+Qed.
+
+Lemma edit_seq_nil m : edit_seq [] m = Some m.
+Proof. reflexivity. Qed.
+
+Lemma edit_seq_spec reqs : forall (m i : dict) m',
+  NoDup (map fst m) -> lookup k_info m = Some (BDict i) -> NoDup (map fst i) -> layout_ok m ->
+  edit_seq reqs m = Some m' ->
+  exists i',
+    lookup k_info m' = Some (BDict i') /\
+    (forall k, k <> k_info -> lookup k m' = top_seq reqs k (lookup k m)) /\
+    (forall k, lookup k i' = info_seq reqs k (lookup k i)) /\
+    (existsb info_edit reqs = false -> i' = i) /\
+    Forall req_ok reqs /\
+    (reqs <> [] -> StronglySorted key_lt m') /\
+    (existsb info_edit reqs = true -> StronglySorted key_lt i').
+Proof.
+  induction reqs as [|r reqs IH]; intros m i m' Nm Hi Ni L E.
+  - rewrite edit_seq_nil in E. injection E as <-.
+    exists i. repeat split; try congruence; try discriminate. constructor.
+  - rewrite edit_seq_cons in E. destruct (edit_torrent r m) as [m1|] eqn:E1; [|discriminate].
+    destruct (edit_spec r m i m1 Nm Hi Ni L E1)
+      as (i1 & Hi1 & Nm1 & Ni1 & Ht & Hinf & Hk & Hsi & Hsm).
+    pose proof (edit_layout_ok r m i m1 Nm Hi Ni L E1) as L1.
+    destruct (IH m1 i1 m' Nm1 Hi1 Ni1 L1 E) as (i' & Hi' & Ht' & Hinf' & Hk' & Hok & Hsm' & Hsi').
+    exists i'. split; [exact Hi'|]. split; [|split; [|split; [|split; [|split]]]].
+    + intros k Hne. rewrite (Ht' k Hne), (Ht k Hne). reflexivity.
+    + intros k. rewrite Hinf', Hinf. reflexivity.
+    + cbn [existsb]. intros X. apply orb_false_iff in X. destruct X as [X1 X2].
+      rewrite (Hk' X2). apply Hk. exact X1.
+    + constructor; [|exact Hok]. apply (edit_success r m i Hi). congruence.
+    + intros _. destruct reqs as [|r2 reqs2].
+      * rewrite edit_seq_nil in E. injection E as <-. exact Hsm.
+      * apply Hsm'. discriminate.
+    + cbn [existsb]. intros X. destruct (existsb info_edit reqs) eqn:X2.
+      * apply Hsi'. reflexivity.
+      * rewrite (Hk' eq_refl). rewrite orb_false_r in X. apply Hsi. exact X.
+Qed.
+
+(* composition of the per-field functions *)
+Lemma fld_after_merge a b old : fld_after (merge_field a b) old = fld_after b (fld_after a old).
+Proof. destruct b as [| |[|c s]|l]; reflexivity. Qed.
+
+Lemma priv_after_merge a b old : priv_after (merge_field a b) old = priv_after b (priv_after a old).
+Proof. destruct b as [| |[|c s]|l]; reflexivity. Qed.
+
+Lemma words_after_merge a b old :
+  words_after (merge_field a b) old = words_after b (words_after a old).
+Proof. destruct b as [| |[|c s]|l]; reflexivity. Qed.
+
+Lemma ann_after_merge a b old :
+  set_words b <> Some [] -> ann_after (merge_field a b) old = ann_after b (ann_after a old).
+Proof.
+  intros Hb. destruct b as [| |[|c s]|l]; try reflexivity.
+  - unfold ann_after. cbn [merge_field is_keep is_clear set_words] in *.
+    destruct (split_ws (c :: s)); [congruence|reflexivity].
+  - unfold ann_after. cbn [merge_field is_keep is_clear set_words] in *.
+    destruct l; [congruence|reflexivity].
+Qed.
+
+Lemma info_after_merge a b k old :
+  info_after (merge_req a b) k old = info_after b k (info_after a k old).
+Proof.
+  unfold info_after, merge_req. cbn [rq_comment rq_source rq_private].
+  destruct (bytes_eqb k_comment k); [apply fld_after_merge|].
+  destruct (bytes_eqb k_source k); [apply fld_after_merge|].
+  destruct (bytes_eqb k_private k); [apply priv_after_merge|reflexivity].
+Qed.
+
+Lemma last_writes_snoc reqs r : last_writes (reqs ++ [r]) = merge_req (last_writes reqs) r.
+Proof. unfold last_writes. rewrite fold_left_app. reflexivity. Qed.
+
+Lemma info_seq_last reqs k old : info_seq reqs k old = info_after (last_writes reqs) k old.
+Proof.
+  induction reqs as [|r reqs IH] using rev_ind.
+  - unfold info_seq, last_writes, info_after. cbn [fold_left].
+    destruct (bytes_eqb k_comment k), (bytes_eqb k_source k), (bytes_eqb k_private k); reflexivity.
+  - rewrite last_writes_snoc, info_after_merge, <- IH.
+    unfold info_seq. rewrite fold_left_app. reflexivity.
+Qed.
+
+Lemma top_seq_last reqs k old :
+  Forall req_ok reqs ->
+  (k = k_announce_list -> is_clear (rq_announce (last_writes reqs)) = false) ->
+  top_seq reqs k old = top_after (last_writes reqs) k old.
+Proof.
+  revert old. induction reqs as [|r reqs IH] using rev_ind; intros old Hok Hc.
+  - unfold top_seq, last_writes, top_after. cbn [fold_left].
+    destruct (bytes_eqb k_announce k), (bytes_eqb k_announce_list k), (bytes_eqb k_url_list k),
+      (bytes_eqb k_httpseeds k); reflexivity.
+  - apply Forall_app in Hok. destruct Hok as [Hok Hr]. inversion Hr as [|x l Hr' _]; subst.
+    unfold req_ok in Hr'.
+    assert (S : top_seq (reqs ++ [r]) k old = top_after r k (top_seq reqs k old))
+      by (unfold top_seq; rewrite fold_left_app; reflexivity).
+    rewrite S, last_writes_snoc. rewrite last_writes_snoc in Hc.
+    destruct (bytes_eqb_spec k_announce_list k) as [<-|N].
+    + specialize (Hc eq_refl). unfold merge_req in Hc. cbn [rq_announce] in Hc.
+      unfold top_after, merge_req. keq. cbv iota. cbn [rq_announce].
+      destruct (rq_announce r) as [| |[|c s]|l] eqn:Er.
+      * cbn [merge_field is_keep] in *. rewrite IH by (try exact Hok; intros _; exact Hc).
+        unfold top_after. keq. reflexivity.
+      * cbn in Hc. discriminate.
+      * cbn in Hc. discriminate.
+      * unfold annlist_after. cbn [merge_field is_keep set_words] in *.
+        destruct (split_ws (c :: s)); [congruence|reflexivity].
+      * unfold annlist_after. cbn [merge_field is_keep set_words] in *.
+        destruct l; [congruence|reflexivity].
+    + rewrite IH by (try exact Hok; intros C; congruence).
+      unfold top_after, merge_req. cbn [rq_announce rq_url_list rq_httpseeds].
+      destruct (bytes_eqb k_announce k); [symmetry; apply ann_after_merge; exact Hr'|].
+      apply bytes_eqb_neq in N. rewrite N.
+      destruct (bytes_eqb k_url_list k); [symmetry; apply words_after_merge|].
+      destruct (bytes_eqb k_httpseeds k); [symmetry; apply words_after_merge|reflexivity].
+Qed.
+
+Lemma merge_field_cases a b : merge_field a b = a \/ merge_field a b = b.
+Proof. unfold merge_field. destruct (is_keep b); [left|right]; reflexivity. Qed.
+
+Lemma last_writes_ok reqs : Forall req_ok reqs -> req_ok (last_writes reqs).
+Proof.
+  induction reqs as [|r reqs IH] using rev_ind; intros Hok.
+  - unfold req_ok. cbn. discriminate.
+  - apply Forall_app in Hok. destruct Hok as [Hok Hr]. inversion Hr as [|x l Hr' _]; subst.
+    rewrite last_writes_snoc. unfold req_ok, merge_req. cbn [rq_announce].
+    destruct (merge_field_cases (rq_announce (last_writes reqs)) (rq_announce r)) as [-> | ->];
+      [apply IH; exact Hok|exact Hr'].
+Qed.
+
+Lemma notkeep_merge a b :
+  negb (is_keep (merge_field a b)) = negb (is_keep a) || negb (is_keep b).
+Proof. destruct a, b; reflexivity. Qed.
+
+Lemma info_edit_merge a b : info_edit (merge_req a b) = info_edit a || info_edit b.
+Proof.
+  unfold info_edit, merge_req. cbn [rq_comment rq_source rq_private]. rewrite !notkeep_merge.
+  destruct (is_keep (rq_comment a)), (is_keep (rq_source a)), (is_keep (rq_private a)),
+    (is_keep (rq_comment b)), (is_keep (rq_source b)), (is_keep (rq_private b)); reflexivity.
+Qed.
+
+Lemma info_edit_last_writes reqs : info_edit (last_writes reqs) = existsb info_edit reqs.
+Proof.
+  induction reqs as [|r reqs IH] using rev_ind; [reflexivity|].
+  rewrite last_writes_snoc, info_edit_merge, existsb_app, IH. cbn [existsb].
+  rewrite orb_false_r. reflexivity.
+Qed.
+
+(* E5.  [m'] after the whole history, [m''] after the single merged request.  The top-level
+   key -> value maps agree (except "announce-list" when the last write to announce is Clear: then
+   the history keeps the list of an earlier Set while the merged request keeps the original one --
+   Clear only promises that "announce" is gone), "info" agrees as a key -> value map, and when no
+   request names an info field both infos are syntactically the original info. *)
+Theorem edit_history reqs (m i : dict) m' :
+  NoDup (map fst m) -> lookup k_info m = Some (BDict i) -> NoDup (map fst i) -> layout_ok m ->
+  edit_seq reqs m = Some m' ->
+  exists m'' i' i'',
+    edit_torrent (last_writes reqs) m = Some m'' /\
+    lookup k_info m' = Some (BDict i') /\ lookup k_info m'' = Some (BDict i'') /\
+    (forall k, k <> k_info ->
+               (k = k_announce_list -> is_clear (rq_announce (last_writes reqs)) = false) ->
+               lookup k m' = lookup k m'') /\
+    (forall k, lookup k i' = lookup k i'') /\
+    (info_edit (last_writes reqs) = false -> i' = i /\ i'' = i).
+Proof.
+  intros Nm Hi Ni L E.
+  destruct (edit_seq_spec reqs m i m' Nm Hi Ni L E) as (i' & Hi' & Ht' & Hinf' & Hk' & Hok & _).
+  destruct (edit_torrent (last_writes reqs) m) as [m''|] eqn:E2.
+  2:{ exfalso. apply (edit_success (last_writes reqs) m i Hi); [|exact E2].
+      apply last_writes_ok; exact Hok. }
+  destruct (edit_spec _ m i m'' Nm Hi Ni L E2) as (i'' & Hi'' & _ & _ & Ht'' & Hinf'' & Hk'' & _).
+  exists m'', i', i''. split; [reflexivity|]. split; [exact Hi'|]. split; [exact Hi''|].
+  split; [|split].
+  - intros k Hne Hc. rewrite (Ht' k Hne), (Ht'' k Hne). apply top_seq_last; assumption.
+  - intros k. rewrite Hinf', Hinf''. apply info_seq_last.
+  - intros IE. split; [apply Hk'; rewrite <- info_edit_last_writes; exact IE|apply Hk''; exact IE].
+Qed.
+
+(* two strictly sorted dictionaries with the same key -> value map are the same list *)
+Lemma sorted_lookup_ext d1 d2 :
+  StronglySorted key_lt d1 -> StronglySorted key_lt d2 ->
+  (forall k, lookup k d1 = lookup k d2) -> d1 = d2.
+Proof.
+  intros S1 S2 H. apply (StronglySorted_perm_eq key_lt key_lt_irrefl key_lt_trans); try assumption.
+  pose proof (sorted_keys_NoDup d1 S1) as N1. pose proof (sorted_keys_NoDup d2 S2) as N2.
+  apply NoDup_Permutation; [eapply NoDup_map_inv; exact N1|eapply NoDup_map_inv; exact N2|].
+  intros [k v]. split; intros I.
+  - apply lookup_Some_In. rewrite <- H. apply In_lookup; assumption.
+  - apply lookup_Some_In. rewrite H. apply In_lookup; assumption.
+Qed.
+
+(* E5, strong form: unless the last write to announce is Clear, a non-empty history and the single
+   merged request produce the SAME ordered dictionary, hence the same file bytes. *)
+Theorem edit_history_eq reqs (m i : dict) m' :
+  NoDup (map fst m) -> lookup k_info m = Some (BDict i) -> NoDup (map fst i) -> layout_ok m ->
+  reqs <> [] -> is_clear (rq_announce (last_writes reqs)) = false ->
+  edit_seq reqs m = Some m' ->
+  edit_torrent (last_writes reqs) m = Some m'.
+Proof.
+  intros Nm Hi Ni L Hne Hc E.
+  destruct (edit_seq_spec reqs m i m' Nm Hi Ni L E)
+    as (i' & Hi' & Ht' & Hinf' & Hk' & Hok & Hsm' & Hsi').
+  destruct (edit_torrent (last_writes reqs) m) as [m''|] eqn:E2.
+  2:{ exfalso. apply (edit_success (last_writes reqs) m i Hi); [|exact E2].
+      apply last_writes_ok; exact Hok. }
+  destruct (edit_spec _ m i m'' Nm Hi Ni L E2)
+    as (i'' & Hi'' & _ & _ & Ht'' & Hinf'' & Hk'' & Hsi'' & Hsm'').
+  f_equal. symmetry.
+  assert (Ei : i' = i'').
+  { destruct (info_edit (last_writes reqs)) eqn:IE.
+    - apply sorted_lookup_ext.
+      + apply Hsi'. rewrite <- info_edit_last_writes. exact IE.
+      + apply Hsi''. reflexivity.
+      + intros k. rewrite Hinf', Hinf''. apply info_seq_last.
+    - rewrite (Hk'' eq_refl). apply Hk'. rewrite <- info_edit_last_writes. exact IE. }
+  apply sorted_lookup_ext; [apply Hsm'; exact Hne|exact Hsm''|].
+  intros k. destruct (bytes_eqb_spec k k_info) as [->|N].
+  - rewrite Hi', Hi'', Ei. reflexivity.
+  - rewrite (Ht' k N), (Ht'' k N). apply top_seq_last; [exact Hok|intros _; exact Hc].
+Qed.
+
+(* ========================================================================================== *)
+(* 5. Boolean checkers, the D11 witness, examples                                              *)
+(* ========================================================================================== *)
+
+Lemma layout_okb_spec m : layout_okb m = true <-> layout_ok m.
+Proof.
+  unfold layout_okb, layout_ok, layout_top_ok, layout_info_ok.
+  rewrite !andb_true_iff, !negb_true_iff, !mem_false. tauto.
+Qed.
+
+Module Examples.
+  Import String.
+  Local Open Scope string_scope.
+  Definition b (s : string) : bytes := list_ascii_of_string s.
+
+  (* a FOREIGN metafile: unsorted at both levels, unknown keys, a string url-list *)
+  Definition ex_info : dict :=
+    [(b"piece length", BInt 16384); (b"name", BStr (b"a")); (b"length", BInt 3);
+     (b"pieces", BStr (b"01234567890123456789")); (b"x-foreign", BList [BInt 1])].
+  Definition ex_meta : dict :=
+    [(b"info", BDict ex_info); (b"announce", BStr (b"http://old")); (b"zzz", BInt 7);
+     (b"created by", BStr (b"other"))].
+
+  Example ex_hyps :
+    NoDup (map fst ex_meta) /\ lookup k_info ex_meta = Some (BDict ex_info) /\
+    NoDup (map fst ex_info) /\ layout_ok ex_meta /\ layout_info_ok ex_info /\
+    canonb (BDict ex_meta) = false.
+  Proof.
+    split; [apply nodupb_spec; vm_compute; reflexivity|]. split; [reflexivity|].
+    split; [apply nodupb_spec; vm_compute; reflexivity|].
+    split; [apply layout_okb_spec; vm_compute; reflexivity|].
+    split; [|vm_compute; reflexivity]. repeat split.
+  Qed.
+
+  (* announce from a multi-word string, url-list from a list, httpseeds cleared (absent) *)
+  Definition ex_req_top : request :=
+    mkReq Keep Keep Keep (SetStr (b"  http://t1   http://t2 ")) (SetList [b"http://w"]) Clear.
+
+  (* E1, E3, E4 on the example: info is syntactically the foreign, unsorted one; top level sorted *)
+  Example ex_edit_top :
+    edit_torrent ex_req_top ex_meta =
+    Some [(b"announce", BStr (b"http://t1"));
+          (b"announce-list", BList [BList [BStr (b"http://t1"); BStr (b"http://t2")]]);
+          (b"created by", BStr (b"other"));
+          (b"info", BDict ex_info);
+          (b"url-list", BList [BStr (b"http://w")]);
+          (b"zzz", BInt 7)].
+  Proof. vm_compute. reflexivity. Qed.
+
+  (* E2, E4, E6: comment from a string, private set, source cleared (absent): info gets sorted *)
+  Definition ex_req_info : request :=
+    mkReq (SetStr (b"hello world")) Clear (SetStr (b"1")) Keep Keep Keep.
+
+  Example ex_edit_info :
+    edit_torrent ex_req_info ex_meta =
+    Some [(b"announce", BStr (b"http://old"));
+          (b"created by", BStr (b"other"));
+          (b"info", BDict [(b"comment", BStr (b"hello world")); (b"length", BInt 3);
+                           (b"name", BStr (b"a")); (b"piece length", BInt 16384);
+                           (b"pieces", BStr (b"01234567890123456789")); (b"private", BInt 1);
+                           (b"x-foreign", BList [BInt 1])]);
+          (b"zzz", BInt 7)].
+  Proof. vm_compute. reflexivity. Qed.
+
+  Example ex_edit_info_canon :
+    option_map (fun m => canonb (BDict m)) (edit_torrent ex_req_info ex_meta) = Some true.
+  Proof. vm_compute. reflexivity. Qed.
+
+  (* IndexError: whitespace-only announce string, empty announce list *)
+  Example ex_index_error :
+    edit_torrent (mkReq Keep Keep Keep (SetStr (b"  ")) Keep Keep) ex_meta = None /\
+    edit_torrent (mkReq Keep Keep Keep (SetList []) Keep Keep) ex_meta = None.
+  Proof. vm_compute. split; reflexivity. Qed.
+
+  (* E5 on a history: Set then Clear then Set of several fields *)
+  Definition ex_history : list request :=
+    [mkReq (SetStr (b"c1")) Keep Keep (SetStr (b"http://x")) Keep Keep;
+     mkReq Clear (SetStr (b"s")) Keep Keep (SetStr (b"http://w1 http://w2")) Keep;
+     mkReq Keep Keep Keep (SetList [b"http://y"; b"http://z"]) Keep Clear].
+
+  Example ex_history_eq :
+    last_writes ex_history =
+      mkReq Clear (SetStr (b"s")) Keep (SetList [b"http://y"; b"http://z"])
+            (SetStr (b"http://w1 http://w2")) Clear /\
+    edit_seq ex_history ex_meta = edit_torrent (last_writes ex_history) ex_meta /\
+    edit_seq ex_history ex_meta <> None.
+  Proof. vm_compute. repeat split. discriminate. Qed.
+
+  (* the exception in E5: Set announce, then Clear announce leaves the announce-list of the Set *)
+  Example ex_history_announce_list :
+    let h := [mkReq Keep Keep Keep (SetStr (b"http://x")) Keep Keep;
+              mkReq Keep Keep Keep Clear Keep Keep] in
+    option_map (lookup (b"announce-list")) (edit_seq h ex_meta)
+      = Some (Some (BList [BList [BStr (b"http://x")]])) /\
+    option_map (lookup (b"announce-list")) (edit_torrent (last_writes h) ex_meta) = Some None /\
+    option_map (lookup (b"announce")) (edit_seq h ex_meta) = Some None.
+  Proof. vm_compute. repeat split. Qed.
+
+  (* Observation (not excluded by any theorem above, and not D11): an info field that is merely
+     NAMED in the request, even Clear of an absent field, makes edit_torrent re-sort info; on a
+     foreign metafile whose info is not sorted this changes the bencoding of info, i.e. the
+     info-hash, although no key or value of info changed. *)
+  Example ex_clear_absent_changes_info_bytes :
+    let req := mkReq Clear Keep Keep Keep Keep Keep in
+    lookup k_comment ex_info = None /\
+    option_map info_of (edit_torrent req ex_meta) = Some (sort_keys ex_info) /\
+    (forall k, lookup k (sort_keys ex_info) = lookup k ex_info) /\
+    encode (BDict (sort_keys ex_info)) <> encode (BDict ex_info).
+  Proof.
+    split; [reflexivity|]. split; [vm_compute; reflexivity|]. split.
+    - intros k. apply lookup_sort_keys. apply nodupb_spec. vm_compute. reflexivity.
+    - vm_compute. intros X. discriminate X.
+  Qed.
+End Examples.
+
+(* ---- D11: layout_ok cannot be dropped ---- *)
+Module D11Consts.
+  Import String.
+  Local Open Scope string_scope.
+  Definition s_top : bytes := Examples.b "top".
+  Definition s_inner : bytes := Examples.b "inner".
+  Definition s_name : bytes := Examples.b "name".
+  Definition s_a : bytes := Examples.b "a".
+  Definition s_old : bytes := Examples.b "http://old".
+End D11Consts.
+Import D11Consts.
+
+Definition d11_meta : dict :=
+  [(k_comment, BStr s_top); (k_info, BDict [(k_comment, BStr s_inner); (s_name, BStr s_a)])].
+Definition d11_req : request := mkReq Clear Keep Keep Keep Keep Keep.
+
+(* filter_empty tries the TOP level first for every key: Clear comment deletes the foreign
+   top-level "comment" and leaves info.comment in place *)
+Example edit_D11_witness :
+  NoDup (map fst d11_meta) /\ NoDup (map fst (info_of d11_meta)) /\ layout_okb d11_meta = false /\
+  edit_torrent d11_req d11_meta =
+    Some [(k_info, BDict [(k_comment, BStr s_inner); (s_name, BStr s_a)])].
+Proof.
+  split; [apply nodupb_spec; vm_compute; reflexivity|].
+  split; [apply nodupb_spec; vm_compute; reflexivity|].
+  split; vm_compute; reflexivity.
+Qed.
+
+(* E4 and E1 without layout_ok are false *)
+Theorem edit_D11_refuted :
+  ~ (forall req (m i m' : dict),
+        NoDup (map fst m) -> lookup k_info m = Some (BDict i) -> NoDup (map fst i) ->
+        edit_torrent req m = Some m' ->
+        is_clear (rq_comment req) = true -> lookup k_comment (info_of m') = None)
+  /\
+  ~ (forall req (m i m' : dict) k,
+        NoDup (map fst m) -> lookup k_info m = Some (BDict i) -> NoDup (map fst i) ->
+        edit_torrent req m = Some m' ->
+        ~ In k (touched_top req) -> lookup k m' = lookup k m).
+Proof.
+  destruct edit_D11_witness as (Nm & Ni & _ & E). split.
+  - intros H. specialize (H d11_req d11_meta _ _ Nm eq_refl Ni E eq_refl).
+    vm_compute in H. discriminate H.
+  - intros H. specialize (H d11_req d11_meta _ _ k_comment Nm eq_refl Ni E).
+    assert (X : ~ In k_comment (touched_top d11_req)).
+    { cbn. intros [C|[]]. discriminate C. }
+    specialize (H X). vm_compute in H. discriminate H.
+Qed.
+
+(* the main theorems instantiated on the examples (their hypotheses are satisfiable) *)
+Example ex_frame_top_applies k :
+  ~ In k (touched_top Examples.ex_req_top) ->
+  option_map (lookup k) (edit_torrent Examples.ex_req_top Examples.ex_meta)
+  = Some (lookup k Examples.ex_meta).
+Proof.
+  intros Hk. destruct Examples.ex_hyps as (A & B & C & D & _).
+  destruct (edit_torrent Examples.ex_req_top Examples.ex_meta) as [m'|] eqn:E;
+    [|vm_compute in E; discriminate].
+  cbn [option_map]. f_equal. exact (edit_frame_top _ _ _ _ k A B C D E Hk).
+Qed.
+
+Example ex_info_untouched_applies :
+  option_map (lookup k_info) (edit_torrent Examples.ex_req_top Examples.ex_meta)
+  = Some (Some (BDict Examples.ex_info)).
+Proof.
+  destruct Examples.ex_hyps as (A & B & _ & _ & D & _).
+  destruct (edit_torrent Examples.ex_req_top Examples.ex_meta) as [m'|] eqn:E;
+    [|vm_compute in E; discriminate].
+  cbn [option_map]. f_equal.
+  exact (edit_info_untouched Examples.ex_req_top _ _ _ A B D eq_refl eq_refl eq_refl E).
+Qed.
+
+Example ex_canon_applies :
+  let m := sort_keys [(k_info, BDict (sort_keys Examples.ex_info));
+                      (k_announce, BStr s_old)] in
+  canon (BDict m) /\
+  forall m', edit_torrent Examples.ex_req_info m = Some m' -> canon (BDict m').
+Proof.
+  cbv zeta. split; [apply canonb_spec; vm_compute; reflexivity|].
+  intros m'. apply edit_canon. apply canonb_spec. vm_compute. reflexivity.
+Qed.
+
+(* ========================================================================================== *)
+(* Assumptions                                                                                 *)
+(* ========================================================================================== *)
+
+Print Assumptions edit_spec.
+Print Assumptions edit_frame_top.
+Print Assumptions edit_frame_info.
+Print Assumptions edit_info_untouched.
+Print Assumptions edit_info_hash_unchanged.
+Print Assumptions edit_sets.
+Print Assumptions edit_history.
+Print Assumptions edit_history_eq.
+Print Assumptions edit_canon.
+Print Assumptions edit_top_sorted.
+Print Assumptions edit_info_sorted.
+Print Assumptions edit_preserves_nodup.
+Print Assumptions edit_preserves_nodup_keys.
+Print Assumptions edit_layout_ok.
+Print Assumptions edit_D11_refuted.
